@@ -101,4 +101,177 @@ Proof.
         pose proof (top_le_bot g W 1 (S (S k)) ltac:(lia) ltac:(lia)) as T. pose proof (bot_lt_lcen g W 1 ltac:(lia)) as B. qc_lra.
   - destruct M as [_ N]. rewrite (N _ In0) in E0. discriminate.
 Qed.
+
+(** ** the 2-D rule *)
+
+Notation obc := (Cell (nz g) 0 0).
+Lemma ob_present : present g obc.
+Proof.
+  pose proof (wf_nz g W). pose proof (wf_nx g W). pose proof (wf_ny g W).
+  apply rock_present; try lia. apply has_bottom; [exact W|lia|lia].
+Qed.
+Lemma ob_vol : bvol (blk obc) = thick g (nz g) * (dxi g 0 * dyj g 0).
+Proof.
+  pose proof (wf_nz g W) as NZ. pose proof (wf_nx g W). pose proof (wf_ny g W).
+  destruct (nz g) as [|m] eqn:EM; [lia|]. change (bvol (blk (Cell (S m) 0 0))) with (volume g (S m) 0 0).
+  unfold volume, area. rewrite <- EM. rewrite (HY height_bottom 0%nat 0%nat) by lia. reflexivity.
+Qed.
+
+Lemma first_dir_unique dir l : link_shape g l -> incident l obc -> ldir l = dir ->
+  (forall l', link_shape g l' -> incident l' obc -> ldir l' = dir -> l' = l) ->
+  first_dir_conn K keqb GG (blk obc) dir = Ok (key l).
+Proof.
+  intros S I D U. unfold first_dir_conn. rewrite (HY bkey_blk). cbn [cnames G].
+  destruct (filter_first_unique (has_dir K keqb GG dir) (cn (nm obc)) (key l)) as [rest E].
+  - apply (in_cn K keqb keqb_spec g nm nm_inj cn CN obc _ (present_latt g _ ob_present)). exists l. auto.
+  - unfold Walk.key. rewrite (has_dir_link K keqb keqb_spec g nm nm_inj cn CN l dir S). apply Nat.eqb_eq. exact D.
+  - intros y Hy Py. apply (in_cn K keqb keqb_spec g nm nm_inj cn CN obc _ (present_latt g _ ob_present)) in Hy.
+    destruct Hy as [l' [S' [I' ->]]]. rewrite (has_dir_link K keqb keqb_spec g nm nm_inj cn CN l' dir S') in Py.
+    apply Nat.eqb_eq in Py. rewrite (U l' S' I' Py). reflexivity.
+  - rewrite E. reflexivity.
+Qed.
+Lemma first_dir_none dir : (forall l', link_shape g l' -> incident l' obc -> ldir l' = dir -> False) ->
+  first_dir_conn K keqb GG (blk obc) dir = Raise IndexError.
+Proof.
+  intros U. unfold first_dir_conn. rewrite (HY bkey_blk). cbn [cnames G]. rewrite filter_none; [reflexivity|].
+  intros y Hy. apply (in_cn K keqb keqb_spec g nm nm_inj cn CN obc _ (present_latt g _ ob_present)) in Hy.
+  destruct Hy as [l' [S' [I' ->]]]. rewrite (has_dir_link K keqb keqb_spec g nm nm_inj cn CN l' dir S').
+  apply Nat.eqb_neq. intro D. exact (U l' S' I' D).
+Qed.
+
+Local Notation DAL := (dist_at_link K keqb keqb_spec g nm nm_inj cn CN).
+
+Lemma own1_code : (2 <= nx g)%nat ->
+  (do p <- first_dir_conn K keqb GG (blk obc) 1; Ok (two * dist_at K keqb GG p (bkey (blk obc)))) = Ok (dxi g 0).
+Proof.
+  intros NX. pose proof (wf_nz g W) as NZ. pose proof (wf_ny g W) as NY.
+  assert (S0 : link_shape g (xlink g (nz g) 0 0)) by (apply LX; try lia; apply has_bottom; try exact W; lia).
+  rewrite (first_dir_unique 1 (xlink g (nz g) 0 0) S0 (or_introl eq_refl) eq_refl).
+  - cbn [bind]. rewrite (HY bkey_blk). unfold Walk.key. rewrite (DAL _ obc S0 (present_latt g _ ob_present)).
+    cbn [xlink la lda]. rewrite cid_eqb_refl. rewrite two_half. reflexivity.
+  - intros l' S' I' D'. destruct (shape_dir1 g W l' (nz g) 0 0 S' D' I') as [[-> _]|[i' [X _]]]; [reflexivity|lia].
+Qed.
+Lemma own2_code : (2 <= ny g)%nat ->
+  (do p <- first_dir_conn K keqb GG (blk obc) 2; Ok (two * dist_at K keqb GG p (bkey (blk obc)))) = Ok (dyj g 0).
+Proof.
+  intros NY. pose proof (wf_nz g W) as NZ. pose proof (wf_nx g W) as NX.
+  assert (S0 : link_shape g (ylink g (nz g) 0 0)) by (apply LY; try lia; apply has_bottom; try exact W; lia).
+  rewrite (first_dir_unique 2 (ylink g (nz g) 0 0) S0 (or_introl eq_refl) eq_refl).
+  - cbn [bind]. rewrite (HY bkey_blk). unfold Walk.key. rewrite (DAL _ obc S0 (present_latt g _ ob_present)).
+    cbn [ylink la lda]. rewrite cid_eqb_refl. rewrite two_half. reflexivity.
+  - intros l' S' I' D'. destruct (shape_dir2 g W l' (nz g) 0 0 S' D' I') as [[-> _]|[j' [X _]]]; [reflexivity|lia].
+Qed.
+(** the origin block's own vertical connection: to the block above it, or to the atmosphere *)
+Lemma own3_link l : vlink g (nz g) (0%nat, 0%nat) = Some l -> lda l = thick g (nz g) * half ->
+  (do p <- first_dir_conn K keqb GG (blk obc) 3; Ok (two * dist_at K keqb GG p (bkey (blk obc)))) = Ok (thick g (nz g)).
+Proof.
+  intros V D. pose proof (wf_nz g W) as NZ. pose proof (wf_nx g W) as NX. pose proof (wf_ny g W) as NY.
+  assert (S0 : link_shape g l) by (apply (LV g (nz g) 0 0); try lia; auto; apply has_bottom; try exact W; lia).
+  destruct (vlink_dir g W _ _ _ _ V) as [D3 LA].
+  rewrite (first_dir_unique 3 l S0 (or_introl LA) D3).
+  - cbn [bind]. rewrite (HY bkey_blk). unfold Walk.key. rewrite (DAL _ obc S0 (present_latt g _ ob_present)).
+    rewrite LA, cid_eqb_refl, D. rewrite two_half. reflexivity.
+  - intros l' S' I' D'. destruct (shape_dir3 g W l' (nz g) 0 0 S' D' I' ltac:(lia)) as [V'|[_ [_ X]]]; [|lia].
+    rewrite V in V'. inversion V'. reflexivity.
+Qed.
+Lemma own3_code : has g (nz g - 1) 0 0 = true \/ (gatm g < 2)%nat ->
+  (do p <- first_dir_conn K keqb GG (blk obc) 3; Ok (two * dist_at K keqb GG p (bkey (blk obc)))) = Ok (thick g (nz g)).
+Proof.
+  intros GU. pose proof (wf_nz g W) as NZ. pose proof (wf_nx g W) as NX. pose proof (wf_ny g W) as NY.
+  destruct (has g (nz g - 1) 0 0) eqn:Hh.
+  - apply (own3_link _ (vlink_up g W (nz g) 0 0 ltac:(lia) Hh)). cbn [lda].
+    rewrite (top_eq g W (nz g)) by lia. rewrite (lcen_eq g W (nz g)) by lia. qc_lra.
+  - destruct GU as [X|GU]; [discriminate|].
+    assert (T : is_top g (nz g) 0 0) by (right; exact Hh).
+    assert (D : gsurf g 0 0 - zc g (nz g) 0 0 = thick g (nz g) * half).
+    { rewrite (HY zc_bottom 0%nat 0%nat) by lia. pose proof (no_above_surface g W (nz g) 0 0 ltac:(lia) Hh) as N.
+      pose proof (wf_bottom g W 0 0 ltac:(lia) ltac:(lia)) as B. rewrite (lcen_eq g W (nz g)) by lia.
+      pose proof (top_eq g W (nz g) ltac:(lia)) as TE. qc_lra. }
+    destruct (atm_cases g W) as [A|[A|A]]; [| |lia].
+    + apply (own3_link _ (vlink_top0 g W (nz g) 0 0 ltac:(lia) T A)). exact D.
+    + apply (own3_link _ (vlink_top1 g W (nz g) 0 0 ltac:(lia) T A)). exact D.
+Qed.
+(** the recorded defect: a 2-D grid without atmosphere blocks whose origin column holds a single block *)
+Lemma own3_defect : has g (nz g - 1) 0 0 = false -> (2 <= gatm g)%nat ->
+  first_dir_conn K keqb GG (blk obc) 3 = Raise IndexError.
+Proof.
+  intros Hh A. pose proof (wf_nz g W) as NZ. apply first_dir_none.
+  intros l' S' I' D'. destruct (shape_dir3 g W l' (nz g) 0 0 S' D' I' ltac:(lia)) as [V'|[_ [_ X]]]; [|lia].
+  rewrite (vlink_top2 g W (nz g) 0 0 ltac:(lia) (or_intror Hh) A) in V'. discriminate.
+Qed.
+
+Definition sp1 : list Qc := if (nx g =? 1)%nat then [] else gdx g.
+Definition sp2 : list Qc := if (ny g =? 1)%nat then [] else gdy g.
+Hypothesis D2 : (2 <= nx g)%nat \/ (2 <= ny g)%nat.
+
+Lemma gdz_last : last_of (gdz g) = Some (thick g (nz g)).
+Proof.
+  pose proof (wf_nz g W) as NZ. rewrite last_of_nth; [reflexivity|]. intro E. unfold nz in NZ. rewrite E in NZ. cbn in NZ. lia.
+Qed.
+
+Lemma spacings_2d_ok fx2 :
+  (fx2 = false -> (nx g = 1%nat \/ ny g = 1%nat) -> has g (nz g - 1) 0 0 = true \/ (gatm g < 2)%nat) ->
+  spacings_2d K keqb fx2 GG (blk obc) sp1 sp2 (gdz g) = Ok (gdx g, gdy g, gdz g).
+Proof.
+  intros GU. pose proof (wf_nz g W) as NZ. pose proof (wf_nx g W) as NX. pose proof (wf_ny g W) as NY.
+  pose proof (dxi_pos g W 0 ltac:(lia)) as PX. pose proof (dyj_pos g W 0 ltac:(lia)) as PY.
+  pose proof (thick_pos g W (nz g) ltac:(lia)) as PZ.
+  assert (LZ : (length (gdz g) =? 0)%nat = false) by (apply Nat.eqb_neq; unfold nz in NZ; lia).
+  unfold spacings_2d, sp1, sp2. rewrite LZ.
+  destruct (Nat.eqb_spec (nx g) 1) as [E1|E1]; destruct (Nat.eqb_spec (ny g) 1) as [E2|E2]; try lia.
+  - (* a single block in direction 1 *)
+    assert (LY : (length (gdy g) =? 0)%nat = false) by (apply Nat.eqb_neq; unfold ny in NY; lia).
+    rewrite LY. cbn [length Nat.eqb Nat.add fold_left].
+    assert (O2 : (if fx2 then match gdy g with x :: _ => Ok x | [] => Raise IndexError end
+                  else do p <- first_dir_conn K keqb GG (blk obc) 2; Ok (two * dist_at K keqb GG p (bkey (blk obc)))) = Ok (dyj g 0)).
+    { destruct fx2; [|apply own2_code; lia]. unfold dyj. destruct (gdy g); [cbn in LY; discriminate|reflexivity]. }
+    assert (O3 : (if fx2 then match last_of (gdz g) with Some x => Ok x | None => Raise IndexError end
+                  else do p <- first_dir_conn K keqb GG (blk obc) 3; Ok (two * dist_at K keqb GG p (bkey (blk obc)))) = Ok (thick g (nz g))).
+    { destruct fx2; [rewrite gdz_last; reflexivity|]. apply own3_code. apply GU; auto. }
+    cbn [bind]. rewrite O2. cbn [bind]. rewrite O3. cbn [bind]. rewrite ob_vol.
+    rewrite (single_list (gdx g) E1). fold (dxi g 0). repeat f_equal.
+    field. split; apply qpos_ne0; assumption.
+  - (* a single block in direction 2 *)
+    assert (LX : (length (gdx g) =? 0)%nat = false) by (apply Nat.eqb_neq; unfold nx in NX; lia).
+    rewrite LX. cbn [length Nat.eqb Nat.add fold_left].
+    assert (O1 : (if fx2 then match gdx g with x :: _ => Ok x | [] => Raise IndexError end
+                  else do p <- first_dir_conn K keqb GG (blk obc) 1; Ok (two * dist_at K keqb GG p (bkey (blk obc)))) = Ok (dxi g 0)).
+    { destruct fx2; [|apply own1_code; lia]. unfold dxi. destruct (gdx g); [cbn in LX; discriminate|reflexivity]. }
+    assert (O3 : (if fx2 then match last_of (gdz g) with Some x => Ok x | None => Raise IndexError end
+                  else do p <- first_dir_conn K keqb GG (blk obc) 3; Ok (two * dist_at K keqb GG p (bkey (blk obc)))) = Ok (thick g (nz g))).
+    { destruct fx2; [rewrite gdz_last; reflexivity|]. apply own3_code. apply GU; auto. }
+    cbn [bind]. rewrite O1. cbn [bind]. rewrite O3. cbn [bind]. rewrite ob_vol.
+    rewrite (single_list (gdy g) E2). fold (dyj g 0). repeat f_equal.
+    field. split; apply qpos_ne0; assumption.
+  - assert (LX : (length (gdx g) =? 0)%nat = false) by (apply Nat.eqb_neq; unfold nx in NX; lia).
+    assert (LY : (length (gdy g) =? 0)%nat = false) by (apply Nat.eqb_neq; unfold ny in NY; lia).
+    rewrite LX, LY. reflexivity.
+Qed.
+
+Lemma cen_z_rock k i j : (1 <= k)%nat -> cen_z K (blk (Cell k i j)) = Ok (zc g k i j).
+Proof. intros Hk. destruct k; [lia|]. reflexivity. Qed.
+
+(** block_spacings recovers the three spacing lists, provided some column reaches the top of layer 1 *)
+Lemma block_spacings_ok fx2 (i0 j0 : nat) : (i0 < nx g)%nat -> (j0 < ny g)%nat -> goz g <= gsurf g i0 j0 ->
+  (fx2 = false -> (nx g = 1%nat \/ ny g = 1%nat) -> has g (nz g - 1) 0 0 = true \/ (gatm g < 2)%nat) ->
+  block_spacings K keqb fx2 GG (blk obc) av = Ok (gdx g, gdy g, gdz g).
+Proof.
+  intros Hi0 Hj0 Hs0 GU. pose proof (wf_nz g W) as NZ. pose proof (wf_nx g W) as NX. pose proof (wf_ny g W) as NY.
+  unfold block_spacings.
+  rewrite (HY track1_start (Some av) (or_intror eq_refl) 0%nat ltac:(lia) (fuel_of K GG) (HY fuel_nx)). cbn [bind].
+  rewrite (HY track2_start (Some av) (or_intror eq_refl) 0%nat ltac:(lia) (fuel_of K GG) (HY fuel_ny)). cbn [bind].
+  destruct (topmost i0 j0 Hi0 Hj0 Hs0) as [i [j [Hi [Hj [Hs ET]]]]]. rewrite ET.
+  rewrite (HY track3_down_start i j Hi Hj (fuel_of K GG) (HY fuel_nz i j Hi Hj Hs) Hs). cbn [bind fst snd].
+  set (L := map blk (map (fun k => Cell k i j) (seq 1 (nz g)))).
+  assert (EL : exists rest, L = blk (Cell 1 i j) :: rest).
+  { unfold L. destruct (nz g) as [|m]; [lia|]. cbn [seq map]. eexists. reflexivity. }
+  assert (LL : last_of L = Some (blk (Cell (nz g) i j))).
+  { unfold L. rewrite map_map. destruct (nz g) as [|m] eqn:EM; [lia|]. rewrite last_of_map_seq. replace (1 + m)%nat with (S m) by lia. reflexivity. }
+  destruct EL as [rest EL]. rewrite LL, EL. rewrite (cen_z_rock 1 i j ltac:(lia)), (cen_z_rock (nz g) i j ltac:(lia)). cbn [bind].
+  assert (Q : qlt (zc g 1 i j) (zc g (nz g) i j) = false).
+  { rewrite (HY zc1_reach i j Hi Hj Hs). rewrite (HY zc_bottom i j Hi Hj).
+    pose proof (lcen_lt_top g W (nz g) ltac:(lia)) as A. pose proof (top_le_bot g W 1 (nz g) ltac:(lia) ltac:(lia)) as B.
+    pose proof (bot_lt_lcen g W 1 ltac:(lia)) as C. qc_lra. }
+  rewrite Q. rewrite thick_list, dx_list, dy_list. apply spacings_2d_ok. exact GU.
+Qed.
 End Sp.
